@@ -272,6 +272,10 @@ def truncate_string(string, max_length):
     :param max_length: the length to truncated to
     :return: a tuple of the new string, and if it was truncated
     """
+    if type(string) is not str and issubclass(type(string), str):
+        # str() hands back what __str__ returned, which can be an instance of a subclass of str: its own slicing and
+        # length are the application's code and do not have to cut anything
+        string = str.__str__(string)
     return string[:max_length], len(string) > max_length
 
 
